@@ -1,0 +1,27 @@
+//go:build verif
+
+package spg
+
+import "sort"
+
+// Verification hooks (build tag "verif"); see /verif/DESIGN.md §6.1.
+// With the tag off these are the no-ops of verif_off.go.
+
+// verifDrawHook, when set by a replay test, observes the bound of every
+// bounded draw the library makes.
+var verifDrawHook func(n uint32)
+
+func verifNoteDraw(n uint32) {
+	if verifDrawHook != nil {
+		verifDrawHook(n)
+	}
+}
+
+// verifCanonical gives the alphabet a canonical (sorted) order so that a
+// scripted random stream yields a reproducible password.
+func verifCanonical(chars charList) charList {
+	out := make(charList, len(chars))
+	copy(out, chars)
+	sort.Strings(out)
+	return out
+}
